@@ -23,6 +23,7 @@ def run(ctx):
         n = 150 if q else 1500
         scen += ctx.gen("Gen_C15", "Gen_C15_sim", simulate="num=%d" % n, depth=26)
         scen += ctx.gen("Gen_C15", "Gen_C15_simad", simulate="num=%d" % (2 * n), depth=26)
+        scen += ctx.gen("Gen_C15", "Gen_C15_simad6", simulate="num=%d" % n, depth=26)          # six rows: also as two parameter rows of three
     traces = ctx.drive("c15", scen)
     ctx.validate("Trace_C15", traces)
     # random variant: keep frequencies against the binomial acceptance region, decided by TLC
